@@ -115,10 +115,12 @@ def ensure_makefile():
 
 def coq_make(targets, timeout=1500, keep_going=False):
     """Full .vo build of the given targets (never -vos). Returns (rc, output)."""
+    # the lock covers only the (re)generation of the Makefile: a long or runaway
+    # proof build must not block the builds of other properties
     with build_lock():
         ensure_makefile()
-        k = "-k " if keep_going else ""
-        return sh(f"make {k}-j{NPROC} " + " ".join(targets), timeout, cwd=COQ)
+    k = "-k " if keep_going else ""
+    return sh(f"make {k}-j{NPROC} " + " ".join(targets), timeout, cwd=COQ)
 
 
 def coq_closure(vfile):
@@ -217,8 +219,7 @@ def compile_property_file(vfile, timeout=600):
     """
     text = strip_coq_comments(open(os.path.join(COQ, vfile)).read())
     asked = re.findall(r"Print\s+Assumptions\s+([A-Za-z0-9_'.]+)\s*\.", text)
-    with build_lock():
-        rc, out = sh(["coqc", "-Q", ".", "BV", "-w", "-notation-overridden", vfile], timeout, cwd=COQ)
+    rc, out = sh(["coqc", "-Q", ".", "BV", "-w", "-notation-overridden", vfile], timeout, cwd=COQ)
     blocks = []
     cur = None
     for line in out.splitlines():
